@@ -7,13 +7,13 @@ from vlib.harness import trees, globrun
 
 G = globrun.G
 FLAGSETS = {'G': G.G, 'G|D': G.G | G.D, 'G|E': G.G | G.E, 'E': G.E, 'X|G|E': G.X | G.G | G.E, 'G|L': G.G | G.L, 'GL|E': G.GL | G.E, 'G|O': G.G | G.O,
-            'G|I': G.G | G.I, 'GL|L|E': G.GL | G.L | G.E, 'G|E|N': G.G | G.E | G.N}
+            'G|I': G.G | G.I, 'GL|L|E': G.GL | G.L | G.E, 'G|E|N': G.G | G.E | G.N, 'X|GL': G.X | G.GL}
 
 
 def run(chk, tier, seed):
     pats = globrun.small_patterns()
-    fsets = ['G', 'G|D', 'G|E', 'X|G|E', 'G|L', 'GL|E', 'G|O'] if tier == 'quick' else list(FLAGSETS)
-    specs = {k: trees.NAMED[k] for k in (('links', 'basic', 'deep2') if tier == 'quick' else trees.NAMED)}
+    fsets = ['G', 'G|D', 'G|E', 'X|G|E', 'G|L', 'GL|E', 'G|O', 'X|GL'] if tier == 'quick' else list(FLAGSETS)
+    specs = {k: trees.NAMED[k] for k in (('links', 'basic', 'deep2', 'acyclic') if tier == 'quick' else trees.NAMED)}
     rnd = random.Random(seed * 17 + 4)
     for i in range(2 if tier == 'quick' else 30):
         specs[f'random{i}'] = trees.random_spec(rnd, 7)
@@ -21,6 +21,9 @@ def run(chk, tier, seed):
     for tname, spec in specs.items():
         cases = [(p, FLAGSETS[fs], None) for fs in fsets for p in pats]
         cases += [(p, G.G | G.E, 'd/**') for p in pats[::4]] + [(p, G.G, ['*.txt', '.*']) for p in pats[::5]]
+        # exclusions must see hidden names although the inclusion flags do not (DOTMATCH is forced on the exclusion route)
+        hidden_pats = [p for p in pats if any(t == ('lit', '.') for t in p)]
+        cases += [(p, G.G, e) for p in hidden_pats + pats[5:8] for e in ('*', '**/*', ['**/?*'])]
         for i in range(0, len(cases), 60):
             items.append((tname, spec, cases[i:i + 60]))
     n = 0
